@@ -442,6 +442,71 @@ pub fn eval_qos(c: &QosCase) -> CaseOut {
     })
 }
 
+#[derive(Clone, Debug, Serialize, Deserialize)]
+pub struct QosReplayCase {
+    /// Maximum QoS of the first connection (None = absent)
+    pub first_max: Option<u8>,
+    /// Maximum QoS of the resumed connection
+    pub second_max: Option<u8>,
+    pub qos: u8,
+}
+
+/// Auto-downgrade across a reconnect: a publish accepted under one Maximum QoS and still unacknowledged
+/// when the session is resumed on a connection with a lower one.
+pub fn eval_qos_replay(c: &QosReplayCase) -> CaseOut {
+    guarded("C19", || {
+        let mut viol = Vec::new();
+        let mut spec = Spec::plain(64, 256);
+        spec.downgrade = true;
+        let mq = |m: Option<u8>| m.map(|q| vec![Prop { id: 0x24, val: PVal::Byte(q) }]).unwrap_or_default();
+        let out = with_session(&spec, |bench, s| {
+            let first = {
+                let Conn::Ok(mut conn, id) = connect(bench, s, &connack(false, mq(c.first_max))) else { return None };
+                let before = bench.written(id).len();
+                let r = bench.run(conn.publish(Publication::bytes("t", b"zz").qos(qos_of(c.qos))), id);
+                if !matches!(r, Some(Ok(_))) {
+                    return None;
+                }
+                bench.written(id)[before..].to_vec()
+            };
+            let Conn::Ok(mut conn, id) = connect(bench, s, &connack(true, mq(c.second_max))) else { return None };
+            let before = bench.written(id).len();
+            let _ = bench.run(conn.poll(), id);
+            Some((first, bench.written(id)[before..].to_vec()))
+        });
+        let Built::Ran(out) = out else { panic!("machinery: config refused") };
+        let Some((first, second)) = out else { panic!("machinery: setup failed") };
+        let qos_of_wire = |b: &[u8]| -> Vec<u8> {
+            let mut v = Vec::new();
+            let mut off = 0;
+            while off < b.len() {
+                match mr::decode_client(&b[off..]) {
+                    Ok((CPacket::Publish(pp), n)) => {
+                        v.push(pp.qos);
+                        off += n;
+                    }
+                    Ok((_, n)) => off += n,
+                    Err(_) => break,
+                }
+            }
+            v
+        };
+        let limit2 = c.second_max.unwrap_or(2);
+        let ctx = format!("first{:?}-second{:?}-req{}", c.first_max, c.second_max, c.qos);
+        for q in qos_of_wire(&second) {
+            if q > limit2 {
+                flag(
+                    &mut viol,
+                    "qos-above-maximum",
+                    "replay-on-a-connection-with-a-lower-maximum-qos",
+                    format!("{}: a PUBLISH at QoS {} is retransmitted on a resumed connection whose CONNACK says Maximum QoS {}", ctx, q, limit2),
+                );
+            }
+        }
+        CaseOut { class: hash_of(&(qos_of_wire(&first), qos_of_wire(&second))), viol }
+    })
+}
+
 pub fn run(tier: Tier, caps: &Caps) -> Vec<FamilyReport> {
     let mut out = Vec::new();
     let mut pc = Vec::new();
@@ -510,11 +575,29 @@ pub fn run(tier: Tier, caps: &Caps) -> Vec<FamilyReport> {
         &|i| eval_qos(&qc[i as usize]),
         &|i| serde_json::to_value(&qc[i as usize]).unwrap(),
     ));
+    let mut rc = Vec::new();
+    for first_max in [None, Some(1u8), Some(2)] {
+        for second_max in [None, Some(0u8), Some(1), Some(2)] {
+            for qos in 1..3u8 {
+                rc.push(QosReplayCase { first_max, second_max, qos });
+            }
+        }
+    }
+    out.push(sweep(
+        "C19-downgrade-and-replay",
+        "C19",
+        rc.len() as u64,
+        caps,
+        json!({"cases": rc.len(), "dimensions": "auto-downgrade on; Maximum QoS of the first connection {absent,1,2} x of the resumed connection {absent,0,1,2} x requested QoS 1/2; the publish is left unacknowledged across the reconnect"}),
+        &|i| eval_qos_replay(&rc[i as usize]),
+        &|i| serde_json::to_value(&rc[i as usize]).unwrap(),
+    ));
     out
 }
 
 pub fn replay(name: &str, case: &Value) -> Option<CaseOut> {
     Some(match name {
+        "C19-downgrade-and-replay" => eval_qos_replay(&serde_json::from_value(case.clone()).ok()?),
         "C19-every-property-in-every-context" => eval_prop(&serde_json::from_value(case.clone()).ok()?),
         "C19-empty-filter-lists" => eval_empty(&serde_json::from_value(case.clone()).ok()?),
         "C19-maximum-qos-and-downgrade" => eval_qos(&serde_json::from_value(case.clone()).ok()?),
